@@ -3,10 +3,10 @@ package coresim
 import (
 	"time"
 
-	vrt "github.com/AliceO2Group/Control/verif_vrt"
 	"github.com/AliceO2Group/Control/common/utils/uid"
 	"github.com/AliceO2Group/Control/core/integration"
 	"github.com/AliceO2Group/Control/core/workflow/callable"
+	vrt "github.com/AliceO2Group/Control/verif_vrt"
 )
 
 // CallLog records every call of the "sim" integration plugin (role path of the call).
@@ -20,16 +20,18 @@ var CallDelay = map[string]time.Duration{}
 
 type simPlugin struct{}
 
-func (p *simPlugin) GetName() string                                           { return "sim" }
-func (p *simPlugin) GetPrettyName() string                                     { return "verif sim plugin" }
-func (p *simPlugin) GetEndpoint() string                                       { return "verif://sim" }
-func (p *simPlugin) GetConnectionState() string                                { return "READY" }
-func (p *simPlugin) GetData(_ []any) string                                    { return "" }
-func (p *simPlugin) GetEnvironmentsData(_ []uid.ID) map[uid.ID]string          { return nil }
-func (p *simPlugin) GetEnvironmentsShortData(_ []uid.ID) map[uid.ID]string     { return nil }
-func (p *simPlugin) Init(_ string) error                                       { return nil }
-func (p *simPlugin) Destroy() error                                            { return nil }
-func (p *simPlugin) ObjectStack(_, _ map[string]string) map[string]interface{} { return map[string]interface{}{} }
+func (p *simPlugin) GetName() string                                       { return "sim" }
+func (p *simPlugin) GetPrettyName() string                                 { return "verif sim plugin" }
+func (p *simPlugin) GetEndpoint() string                                   { return "verif://sim" }
+func (p *simPlugin) GetConnectionState() string                            { return "READY" }
+func (p *simPlugin) GetData(_ []any) string                                { return "" }
+func (p *simPlugin) GetEnvironmentsData(_ []uid.ID) map[uid.ID]string      { return nil }
+func (p *simPlugin) GetEnvironmentsShortData(_ []uid.ID) map[uid.ID]string { return nil }
+func (p *simPlugin) Init(_ string) error                                   { return nil }
+func (p *simPlugin) Destroy() error                                        { return nil }
+func (p *simPlugin) ObjectStack(_, _ map[string]string) map[string]interface{} {
+	return map[string]interface{}{}
+}
 func (p *simPlugin) CallStack(data interface{}) map[string]interface{} {
 	call, ok := data.(*callable.Call)
 	if !ok {
